@@ -342,6 +342,8 @@ CORE = [
      "ctx": [{"c": {"e": -0.0101, "a": -250000.0}, "k": 500000.10985999997}]},
     {"kind": "list", "family": "core", "style": "wide", "terms": [{"c": {"a": -948.8, "c": -1000000.0, "e": -0.0008812}, "k": -2000948.8025435999}, {"c": {"b": -3.0, "e": 1000000.0, "a": 1000000.0}, "k": 3999992.234}, {"c": {"a": -1.234, "e": 1000.0, "d": 250000.0}, "k": -496966.304}], "ctx": [{"c": {"c": -78.9}, "k": 1000.0}, {"c": {"d": 123400.0, "c": -9.999}, "k": -370199.5}, {"c": {"a": 1.234, "c": 0.5, "e": -0.02116}, "k": -3.24432}]},
     {"kind": "list", "family": "core", "style": "wide", "terms": [{"c": {"b": -0.0001, "a": 1000.0}, "k": 0.9997}, {"c": {"a": -1.234}, "k": 1.234}, {"c": {"a": 0.0006429}, "k": 0.001}, {"c": {"b": -9.99995e-05}, "k": 12.4997}, {"c": {"b": 10090.0, "a": 7.708}, "k": 30270.0001}], "ctx": [{"c": {"b": -0.0001}, "k": 12.4997}]},
+    {"kind": "list", "family": "core", "style": "wide", "terms": [{"c": {"a": -0.02, "c": 0.2894}, "k": 249999.7506}, {"c": {"b": -0.0001, "a": -123400.0, "c": -1000.0}, "k": 1247800.0}, {"c": {"c": 263600.0, "a": -2.0}, "k": -263594.0}, {"c": {"c": 1000.0, "b": 1.234, "a": 0.125}, "k": -981.77}, {"c": {"c": 1003.0, "b": 1.234, "a": 1000000.125}, "k": -980.75}], "ctx": [{"c": {"c": 3.0, "a": 1000000.0}, "k": 0.02}]},
+    {"kind": "list", "family": "core", "style": "wide", "terms": [{"c": {"c": -1000.0, "b": 0.5}, "k": 1002.0}, {"c": {"a": -0.0002574}, "k": 123399.9997426}, {"c": {"c": 1000.0, "b": -0.0004496, "a": -0.125}, "k": -1000.1157992000001}, {"c": {"a": -1.0, "c": -2999.998, "b": 1.5}, "k": 3006.248}, {"c": {"a": -0.5, "c": 0.001}, "k": -0.376}], "ctx": []},
     {"kind": "list", "family": "core", "style": "int", "terms": [{"c": {}, "k": 0.0}, {"c": {}, "k": 1.0},
                                                                  {"c": {}, "k": 2.5}], "ctx": [{"c": {}, "k": 1.0}]},
     {"kind": "list", "family": "core", "style": "float",
